@@ -94,7 +94,7 @@ def run_case(item):
 
 def plan(tier):
     grid = (0.0, 0.25, BT + EPS) if tier == 'quick' else (0.0, 0.25, BT - EPS, BT + EPS, 2.5)
-    shapes = [(2, 1), (3, 1), (3, 2)] if tier == 'quick' else [(2, 1), (3, 1), (3, 2), (4, 1), (4, 2)]
+    shapes = [(2, 1), (3, 1), (3, 2)] if tier == 'quick' else [(2, 1), (3, 1), (3, 2), (4, 1)]
     fresh = (('call', 0), ('call', 1), ('call', 7))
     scripts = [{}, {'0': 'exc'}, {'1': 'exc'}]
     for n_calls, n_cancels in shapes:
@@ -103,7 +103,7 @@ def plan(tier):
                 for c in ((1, 2) if n_calls <= 3 else (1,))
                 for r in (0.0, 2.0) for o in ('fwd', 'rev') for d in (0.0, 0.5)]
         g = grid if (n_calls + n_cancels) <= 4 or tier != 'quick' else (0.0, 0.25, BT + EPS)
-        if tier != 'quick' and n_calls + n_cancels >= 6:
+        if tier != 'quick' and n_calls + n_cancels >= 5:
             g = (0.0, 0.25, BT + EPS)
         for pat in event_patterns(n_calls, n_cancels):
             gapsets = list(itertools.product(g, repeat=len(pat) - 1))
